@@ -169,6 +169,10 @@ def classify(g, ctx, bb, t):
         mname = method[4:] if try_ else method
         return Eff('xcall', ctx, bb, callee, at, client=sa.split('::')[-1], method=mname,
                    try_=try_, target=client_target(a[0]), args=a[1:], readonly=mname in READONLY_METHODS)
+    if callee.startswith('INDIRECT ') or callee.startswith('UNRESOLVED '):
+        # a call through a function pointer / trait object whose target is not known in this calling context (a known one is a
+        # child context in the graph and never reaches here): anything may happen in it - opaque effect, fail closed
+        return Eff('sdk', ctx, bb, callee, at, name='indirect call', args=A())
     # everything else must be provably irrelevant
     if crate in ('soroban_sdk', 'soroban_token_sdk', 'soroban_env_common', 'soroban_env_guest', 'soroban_env_host'):
         if any(p in callee for p in PURE_SDK):
